@@ -262,6 +262,8 @@ def check(case):
         tags.append("alpha_end")
     if [k for k, _ in case["layout"]] != ["s"] * ns + ["z"] * no:
         tags.append("interleaved")
+    if len(case["S"]) + len(case["Z"]) > 16:
+        tags.append("columns>16")
     return tags
 
 
@@ -276,7 +278,7 @@ def _tenths(v):
 def _cases(draw):
     n = draw(st.one_of(st.integers(2, 5), st.integers(2, 30)))
     ns = draw(st.sampled_from([1, 2, 2, 2, 3, 3, 4]))
-    no = draw(st.integers(1, 5))
+    no = draw(st.one_of(st.integers(1, 5), st.integers(1, 5), st.integers(1, 5), st.sampled_from([13, 16, 22])))  # also wide tables
     decimal = draw(st.booleans())
     lo, hi = (-50, 90) if decimal else (-5, 9)
 
@@ -322,7 +324,7 @@ def _cases(draw):
         layout = list(draw(st.permutations(layout)))
     ids_order = list(draw(st.permutations(range(ns))))
     container = draw(st.sampled_from(["ndarray", "ndarray", "dataframe"]))
-    names = list(draw(st.permutations(NAMES)))[: ns + no]
+    names = list(draw(st.permutations(NAMES + ["w%d" % i for i in range(max(0, ns + no - len(NAMES)))])))[: ns + no]
     alpha = draw(st.one_of(st.sampled_from([0.0, 1.0, 0.5, 0.25]), st.floats(0.0, 1.0, allow_nan=False)))
     m = draw(st.integers(1, 3))
 
